@@ -166,6 +166,14 @@ class WatermarkPoolSink(PoolSink):
     Args:
       sink - An open sink.
     """
+    if sink.state > ChannelState.Open and not sink.is_closed:
+      # The sink cannot carry a request yet (e.g. a transport that is still
+      # re-establishing its connection after a timeout).  Replace it, as
+      # _Dequeue does for a cached sink, rather than lending it while it is busy.
+      self._DiscardSink(sink)
+      sink = self._sink_provider.CreateSink(self._properties)
+      sink.on_faulted.Subscribe(self.__PropagateShutdown)
+      sink.Open().wait()
     while self._waiters:
       sink_stack, msg, stream, headers = self._waiters.popleft()
       self._varz.queue_size(len(self._waiters))
